@@ -114,10 +114,16 @@ Definition extend (env : modid -> option ihash) (S : list modid) (f : modid -> i
 
 Section Protocol.
   Variable content_of : modid -> stamp -> content.
+  (* what the analysis SEES of a file: its text AND its kind (.py / .pyi).  validate_meta compares only the hash of the
+     text (content_of), mtime, size and path-as-a-string: finding F7. *)
+  Variable view_of : modid -> stamp -> content.
   Variable imports : modid -> content -> opts -> list modid.
   (* `from pkg import name`: pkg.name is only PROBED (BuildManager.is_module): it becomes a dependency if the module
      exists and is otherwise recorded nowhere - neither in dependencies nor in suppressed *)
   Variable probes : modid -> content -> opts -> list modid.
+  (* implicit submodule references (`pkg.mod.C` with only `import pkg`): they resolve iff pkg.mod happens to have been
+     analysed before, and are recorded (as indirect dependencies) only when they resolve: finding F9 *)
+  Variable implicits : modid -> content -> opts -> list modid.
   Variable analyze : list modid -> (modid -> content) -> opts -> (modid -> option ihash) -> modid -> result.
   Variable sccs_of : list (modid * list modid) -> list (list modid).
   Variable reach : list (modid * list modid) -> modid -> modid -> bool.
@@ -173,12 +179,12 @@ Section Protocol.
   Definition cands (c : store) (o : opts) (fs : FS) (m : modid) (s : stamp) : list modid :=
     match load_meta c o fs m with
     | Some (e, _) => m_deps e ++ m_supp e
-    | None => imports m (content_of m s) o ++ probes m (content_of m s) o
+    | None => imports m (view_of m s) o ++ probes m (view_of m s) o
     end.
   Definition hard_cands (c : store) (o : opts) (fs : FS) (m : modid) (s : stamp) : list modid :=
     match load_meta c o fs m with
     | Some (e, _) => m_deps e ++ m_supp e
-    | None => imports m (content_of m s) o
+    | None => imports m (view_of m s) o
     end.
   Definition direct_deps c o fs m s := found fs (cands c o fs m s).
   Definition supp_deps c o fs m s := notfound fs (hard_cands c o fs m s).   (* a probe that is not found is dropped *)
@@ -234,7 +240,7 @@ Section Protocol.
     end.
 
   Definition src_of (fs : FS) (m : modid) : content :=
-    match lookup fs m with Some s => content_of m s | None => 0 end.
+    match lookup fs m with Some s => view_of m s | None => 0 end.
 
   Definition ign_now (fs : FS) (o : opts) (m : modid) : bool :=
     match lookup fs m with Some s => ign_of m s o | None => false end.
@@ -303,8 +309,27 @@ Section Protocol.
   Definition probe_fresh (c : store) (o : opts) (fs : FS) : bool :=
     forallb (fun ms => match load_meta c o fs (fst ms) with
                        | Some (e, _) => forallb (fun d => negb (inG fs d) || mem d (m_deps e))
-                                                (probes (fst ms) (content_of (fst ms) (snd ms)) o)
+                                                (probes (fst ms) (view_of (fst ms) (snd ms)) o)
                        | None => true end) fs.
+
+  (* the file of a reused entry is still seen the same way (same text and same kind) as when it was validated last *)
+  Definition kind_stable (c : store) (o : opts) (fs : FS) : bool :=
+    forallb (fun ms => match load_meta c o fs (fst ms) with
+                       | Some (e, _) => Nat.eqb (view_of (fst ms) (m_stamp e)) (view_of (fst ms) (snd ms))
+                       | None => true end) fs.
+  (* every implicit submodule reference that names a module of the build points DOWN the import graph (so that it is
+     resolved or not independently of scheduling) and, for a reused entry, is recorded in it *)
+  Definition group_of (L : list (list modid)) (m : modid) : list modid :=
+    match find (fun G => mem m G) L with Some G => G | None => [] end.
+  Definition implicit_stable (c : store) (o : opts) (fs : FS) : bool :=
+    let dm := depmap c o fs in
+    forallb (fun ms =>
+      forallb (fun d => negb (inG fs d)
+                        || ((reach dm (fst ms) d || mem d (group_of (sccs_of dm) (fst ms)))
+                            && match load_meta c o fs (fst ms) with
+                               | Some (e, x) => mem d (m_deps e ++ x_deps x)
+                               | None => true end))
+              (implicits (fst ms) (view_of (fst ms) (snd ms)) o)) fs.
 
   (* ---- blocking errors (syntax errors ...): they are raised while the graph is loaded, i.e. for the modules that
      have to be parsed because they have no valid meta.  The run aborts with status 2 before any SCC is processed;
